@@ -103,6 +103,7 @@ type vpPair struct {
 	dispA, dispB *vpDispatcher
 	pipeA, pipeB net.Conn
 	newStreamsB  []*Stream
+	rbufA, rbufB [1 << 16]byte
 }
 
 var vpCounter uint64
@@ -190,6 +191,25 @@ func (a vpAdapter) newConnection(connFd *os.File) eventConn { return nil }
 func (a vpAdapter) shutdown() error { return nil }
 func (a vpAdapter) post(f func())   { a.d.post(f) }
 
+// feed presents bytes to a session's protocol handlers the way the event connection does: in a read buffer that is reused
+// for the next read. After the handlers return, the buffer is overwritten, so anything that kept a reference into it
+// instead of copying sees garbage (as it would with the real connection buffer).
+func (p *vpPair) feed(to *Session, data []byte) (int, error) {
+	buf := p.rbufA[:]
+	if to == p.B {
+		buf = p.rbufB[:]
+	}
+	if len(data) > len(buf) {
+		return to.handleEvents(data)
+	}
+	n := copy(buf, data)
+	consumed, err := to.handleEvents(buf[:n])
+	for i := 0; i < n; i++ {
+		buf[i] = 0xEE
+	}
+	return consumed, err
+}
+
 // deliver hands every event the peer has written so far to `to`'s protocol handlers (what the event loop does).
 // It returns the number of events' chunks handled.
 func (p *vpPair) deliver(to *Session) (int, error) {
@@ -208,7 +228,7 @@ func (p *vpPair) deliver(to *Session) (int, error) {
 	if to.IsClosed() {
 		return len(chunks), nil
 	}
-	consumed, err := to.handleEvents(buf)
+	consumed, err := p.feed(to, buf)
 	if err != nil {
 		to.exitErr(err)
 		return len(chunks), err
